@@ -143,7 +143,8 @@ def gen_configs(ctx):
         # schedule must survive a resume between them); strategy latest: MAP, then MGVI.
         return [(base("all", 3, fresh=[True, False, False], init_none=True, grow_at=2,
                       newton_limit=[2, 3, 1], cg_limit=[3, 2, 3]), "light", 2, False, True),
-                (base("latest", 2, n_samples=[0, 1], fresh=[True, False], init_none=True, grow_at=1,
+                # ... with 6 mirrored sample pairs = 12 sample files (two-digit file indices)
+                (base("latest", 2, n_samples=[0, 6], fresh=[True, False], init_none=True, grow_at=1,
                       newton_limit=[3, 2], cg_limit=[2, 3]), "light", 2, False, True)]
     return [
         (base("all", 3, n_samples=[1, 2, 1]), "full", 6, True, True),
@@ -160,6 +161,7 @@ def gen_configs(ctx):
         (base("all", 4, init_none=True, grow_at=2, n_samples=[1, 1, 2, 1], newton_limit=[1, 3, 2, 2], cg_limit=[2, 3, 3, 2]), "light", 3, True, True),
         (base("latest", 4, init_none=True, grow_at=1, grow2_at=3, n_samples=[1, 2, 1, 1], newton_limit=[2, 1, 3, 2]), "light", 3, False, True),
         (base("latest", 3, grow_at=2, n_samples=[0, 1, 2], cg_limit=[3, 1, 2]), "light", 2, False, True),
+        (base("all", 3, n_samples=[6, 1, 7], transition=False), "kill", 1, False, True),          # > 10 sample files
         (base("all", 3, init_none=True, grow_at=int(rng.integers(1, 3)), fresh=[True, bool(rng.integers(0, 2)), bool(rng.integers(0, 2))],
               transition=False, geovi=True), "kill", 2, False, True),
     ]
